@@ -47,6 +47,8 @@ required; whatever is returned must multiply back to n with parts > 1).
 import math, os, re, json, random
 from vlib.pipeline import Case
 from vlib import gen
+from props import c16_pm1 as pmx          # Pollard P-1 end to end (whole-function model): cases / oracle / klass
+import sys as _sys
 
 PID = "C16"
 GEN = ["params", "stage2"]
@@ -1331,6 +1333,7 @@ def cases(tier, rng, extended=False):
     if extended:
         scale *= 5
     yield from boundary_cases(_fork(rng, "C16-boundary"), tier)
+    yield from pmx.cases(tier, _fork(rng, "C16-pm1impl"), _sys.modules[__name__], extended)
     yield from table_cases()
     yield from sel_cases(rng, 60 * scale)
     yield from constructed_cases(tier, rng, extended)
@@ -1422,6 +1425,8 @@ def row_key(consumer, row):
 
 def oracle(case, ans):
     op, a = case.op, case.args
+    if op in pmx.OPS:
+        return pmx.oracle(case, ans, _sys.modules[__name__])
     if ans in ("panic", "abort", "hang", "?") and op not in ("s2_gcdf",):
         return f"no answer ({ans})"
     if op == "s2_row":
@@ -1651,6 +1656,8 @@ def static_findings(listed):
 
 def klass(case, ans):
     op = case.op
+    if op in pmx.OPS:
+        return pmx.klass(case, ans)
     tag = case.tag or ""
     short = ans.split(" ")[0] if ans else ""
     if op == "s2_pm1x":
